@@ -1,6 +1,7 @@
 """Obligations, verdict discipline, baseline manifest, known findings, evidence, exit codes (DESIGN §2)."""
 import hashlib
 import json
+import re
 import os
 import pathlib
 import time
@@ -94,6 +95,13 @@ def load_known():
     return json.loads(p.read_text()).get("findings", [])
 
 
+_TAG = re.compile(r"\|(?:True|False|None)(?:,(?:True|False|None))*(?:/handler)?$")
+
+
+def _untag(key):
+    return _TAG.sub("|*", key)
+
+
 def load_baseline(prop):
     p = VERIF / "baseline" / (prop + ".obligations.json")
     if not p.exists():
@@ -133,9 +141,11 @@ def run_property(prop, tier="quick", root="/repo/verde", overlay=None, write=Tru
     base = load_baseline(prop) if overlay is None or True else None
     missing = []
     if base is not None and err is None:
-        have = {o.key for o in obs}
+        # per-path obligations carry the truth values of the path's decisions as a tag; how a branch is written (inverted test,
+        # swapped arms) changes those tags but not the rule instances, so the tag is not part of what must be re-found
+        have = {_untag(o.key) for o in obs}
         for k in base["obligations"]:
-            if k not in have:
+            if _untag(k) not in have:
                 missing.append(k)
         mins = base.get("min_per_rule", {})
         count = {}
